@@ -285,6 +285,17 @@ pub fn gen_c15(out: &mut dyn Write, seed: u64, thorough: bool) {
         "é".as_bytes().to_vec(), "€".as_bytes().to_vec(), "🥸".as_bytes().to_vec(), vec![0xC0, 0x80], vec![0xED, 0xA0, 0x80],
         vec![0xF4, 0x90, 0x80, 0x80], vec![0xE2, 0x82], vec![0x80], vec![0xFF], b"plain".to_vec(), vec![0x7F, 0x00, 0x1F],
     ];
+    // special scalar values (byte order mark, non-characters, separators, the ends of the planes) at the start,
+    // in the middle and at the end of a UTF-8 / ASCII section: "exactly the valid sequences, passed through unchanged"
+    let mut seqs = seqs;
+    for cp in [0xFEFFu32, 0xFFFE, 0xFFFF, 0x0, 0x7F, 0x80, 0x85, 0xA0, 0xAD, 0x2028, 0x2029, 0x200B, 0xD7FF, 0xE000, 0xFDD0, 0x1FFFE, 0x10FFFF] {
+        let c = char::from_u32(cp).unwrap();
+        seqs.push(format!("{}abc", c).into_bytes());
+        seqs.push(format!("ab{}c", c).into_bytes());
+        seqs.push(format!("abc{}", c).into_bytes());
+        seqs.push(format!("{}", c).into_bytes());
+        seqs.push(format!("{}{}", c, c).into_bytes());
+    }
     for e in [26u8, 27] {
         for s in &seqs {
             let mut cw = vec![241, e + 1, 231];
@@ -298,6 +309,14 @@ pub fn gen_c15(out: &mut dyn Write, seed: u64, thorough: bool) {
             }
             writeln!(out, "P dstr {} => {}", hex(&cw), dstr(&cw)).unwrap();
         }
+    }
+    for s in &seqs {
+        if s.len() > 6 || s.iter().any(|b| *b == 0) { continue; }
+        // two sections: ASCII text under ECI 3, then the sequence at the start of a later UTF-8 section
+        let mut cw = vec![241u8, 4, b'x' + 1, 241, 27];
+        for b in s { if *b < 128 { cw.push(*b + 1) } else { cw.push(235); cw.push(*b - 127) } }
+        cw.push(b'y' + 1);
+        writeln!(out, "P dstr {} => {}", hex(&cw), dstr(&cw)).unwrap();
     }
     for _ in 0..(if thorough { 50000 } else { 5000 }) {
         let e = *rng.pick(&[3u8, 11, 13, 26, 27]);
@@ -415,6 +434,29 @@ pub fn gen_c14(out: &mut dyn Write, seed: u64, thorough: bool) {
             }
         }
         writeln!(out, "# special_scalar_strings {}", n_special).unwrap();
+    }
+    // 1c. long strings whose bytes form one Base 256 field at the boundaries of its length forms (249 / 250 bytes,
+    // the maximum of 1555 bytes that exactly fills 144x144), on the Latin-1 branch and on the UTF-8 branch
+    {
+        let mut cases: Vec<String> = vec![];
+        for n in [248usize, 249, 250, 251, 252, 500, 1553, 1554, 1555] {
+            cases.push("\u{e9}".repeat(n));
+            cases.push((0..n).map(|i| ['\u{e9}', '\u{fc}', '\u{df}', '\u{c0}'][i % 4]).collect());
+        }
+        for n in [123usize, 124, 125, 126, 250, 774, 775, 776] {
+            cases.push("\u{3bb}".repeat(n));
+        }
+        for st in cases {
+            match enc(&st) {
+                Ok(cw) => {
+                    writeln!(out, "O strchk {} {} => ok", hex(st.as_bytes()), hex(&cw)).unwrap();
+                    let back = dstr(&cw);
+                    let want = format!("ok:{}", hex(st.as_bytes()));
+                    writeln!(out, "O oracle {} => ok", if back == want { "ok".to_string() } else { format!("fail:decode_str:long-string-{}:returned:{}", st.chars().count(), &back[..back.len().min(60)]) }).unwrap();
+                }
+                Err(e) => writeln!(out, "O oracle fail:encode_str:{}:long-string-of-{}-chars-{}-bytes => ok", e, st.chars().count(), st.len()).unwrap(),
+            }
+        }
     }
     // 2. random strings over scalar classes, some in macro shape
     let n = if thorough { 200000 } else { 20000 };
